@@ -160,6 +160,7 @@ def gen_energy_specs(rng, P, n):
              {"type": "energy", "thr": 1e-30, "min": 2, "max": P.T // 2},
              {"type": "energy", "thr": 1e30, "min": None, "max": None},
              {"type": "energy", "thr": 1e-30, "min": None, "max": None}]
+    specs.insert(2, {"type": "energy", "thr": 1e30, "min": 0, "max": None})      # explicit 0 is not "unset" (seed C07h)
     peak = int(np.argmax(E))
     late = gap_thresholds(E[peak:], 1e-3 * big) or thr
     while len(specs) < n:
@@ -242,6 +243,15 @@ def stop_fails(P, spec, ran=None):
         return f"{desc}: halted at step {t} but the condition first reports stop at step {first}"
     if t < min(mn, mx, T):
         return f"{desc}: halted at step {t}, before min_steps"
+    if spec["type"] == "energy":
+        # the DECLARED condition (seed C07h: setup() silently replaced an explicit min_steps=0, and every bound read back
+        # from the set-up object followed it): explicit min/max as passed, documented defaults round(0.1*T) / T otherwise
+        mn_d = spec["min"] if spec["min"] is not None else int(round(0.1 * T))
+        mx_d = spec["max"] if spec["max"] is not None else T
+        want = next((k for k in range(T) if k >= mx_d or (k >= mn_d and P.E[k] < spec["thr"])), T)
+        if t != want:
+            return (f"{desc}: halted at step {t}; the declared condition (min_steps={spec['min']}, max_steps={spec['max']}, "
+                    f"energies of the plain run) first reports stop at step {want}")
     if log != list(range(t)):
         return f"{desc}: executed steps {log}, expected 0..{t - 1}"
     t0, s0 = base.snapshot(*P.states[t])
@@ -319,7 +329,7 @@ def run(ctx):
     for i in range(n_scenes):
         sc = gen_scene(ctx.rng.fork(), i + ctx.seed)
         P = Plain(sc)
-        n_cheap, n_full = ctx.scale(10, 40), ctx.scale(3, 8)
+        n_cheap, n_full = ctx.scale(10, 40), ctx.scale(4, 8)
         k_spec(ctx, P, {"type": "time"}, i == 0, idx)
         for kind, gen in (("energy", gen_energy_specs), ("det", gen_det_specs)):
             specs = gen(ctx.rng, P, n_cheap)
